@@ -2059,6 +2059,10 @@ class RedunBackendDb(RedunBackend):
                 )
             )
             try:
+                # Record special rows (File, Task) in the same transaction as the Value row. A
+                # Value that is already recorded is never revisited, so if the process died
+                # between two separate commits the special row would be missing forever.
+                self._record_special_redun_values([value], [value_hash], commit=False)
                 session.commit()
             except sa.exc.IntegrityError:
                 # Most likely value recorded in the meantime by another process.
@@ -2072,8 +2076,6 @@ class RedunBackendDb(RedunBackend):
                     # something else went wrong
                     raise
 
-            self._record_special_redun_values([value], [value_hash])
-
             # Record subvalues.
             subvalues = list(value_interface.iter_subvalues())
             if subvalues:
@@ -2082,7 +2084,9 @@ class RedunBackendDb(RedunBackend):
         return value_hash
 
     @use_acquire
-    def _record_special_redun_values(self, values: list[Any], value_hashes: list[str]):
+    def _record_special_redun_values(
+        self, values: list[Any], value_hashes: list[str], commit: bool = True
+    ):
         """
         Record special Values such as Files and Tasks
         """
@@ -2128,7 +2132,7 @@ class RedunBackendDb(RedunBackend):
                     )
                 )
 
-        if new_inserts:
+        if new_inserts and commit:
             self.session.commit()
 
     def _record_subvalues(self, subvalues: list[Any], parent_value_hash: str):
@@ -2194,10 +2198,9 @@ class RedunBackendDb(RedunBackend):
                     )
                 )
 
-            if new_inserts:
-                session.commit()
-
-            self._record_special_redun_values(subvalues, value_hashes)
+            # Record special rows (File, Task) in the same transaction as their Value rows.
+            self._record_special_redun_values(subvalues, value_hashes, commit=False)
+            session.commit()
 
     def _deserialize_value(self, type_name: str, data: bytes) -> tuple[Any, bool]:
         """
